@@ -211,7 +211,8 @@ class ProgramModel:
         self.raw_modules = {m: (rel, set_parents(clone(tree))) for m, (rel, tree, _) in self.modules.items()}
         # canonical form (efa/canon.py): constants substituted, private helpers inlined, temporaries folded
         if os.environ.get("EFA_NO_CANON") != "1":
-            from .canon import Canonicaliser, substitute_constants
+            from .canon import Canonicaliser, substitute_constants, lower_match_statements
+            self.n_match_lowered = sum(lower_match_statements(tree) for _, tree, _ in self.modules.values())
             n_const = sum(substitute_constants(tree) for _, tree, _ in self.modules.values())
             self.canon_stats = Canonicaliser(self).run()
             self.canon_stats["constants_substituted"] = n_const
